@@ -184,6 +184,15 @@ def run_cycles(fm0, writer, reader, sc, ext, n, pid, binary=False):
     texts, models, obss = [], [], []
     cur = fm0
     path = sc.path(f"model.{ext}")
+    import zlib
+    obs0 = build.observe(fm0)
+    if zlib.crc32(repr([f["name"] for f in obs0["features"]]).encode("utf-8", "replace")) % 4 == 0:
+        path = sc.relative(f"model.{ext}")       # a bare file name in the working directory (no directory part at all)
+    # a call that fails in the middle must leave nothing behind: the model plus one arithmetic constraint over an
+    # attribute reference is something most writers cannot express (they raise); the outcome is ignored
+    poison = _poison_twin(fm0)
+    if poison is not None:
+        lib(writer, path, poison)
     # a decoy model is written and read at the very same path first: a reader or writer that remembers what it
     # did for a path (or a file left open) would hand the decoy back in cycle 1
     decoy = build.build({"root": build.feat("Decoy", [build.rel(0, 1, [build.feat("DecoyChild")])]), "ctcs": []})
@@ -229,6 +238,18 @@ def run_cycles(fm0, writer, reader, sc, ext, n, pid, binary=False):
             if obss[k - 1] != obss[k - 2]:
                 out.append((f"{pid}.model-not-idempotent", f"cycle {k} model differs from cycle {k - 1}: {_first_obs_diff(obss[k - 2], obss[k - 1])}"))
     return out, texts, models, obss
+
+
+def _poison_twin(fm):
+    snap = build.observe(fm)
+    if snap.get("problems"):
+        return None
+    try:
+        spec = build.spec_from_observation(snap)
+        spec["ctcs"] = spec["ctcs"] + [{"name": "Poison", "ast": ["GREATER", ["ADD", ["T", spec["root"]["name"] + ".cost"], ["I", 1]], ["I", 3]]}]
+        return build.build(spec)
+    except Exception:  # noqa: BLE001 - only a decoy
+        return None
 
 
 def _type_confused_twin(fm):
